@@ -364,6 +364,47 @@ def run(index, rep, tier):
                       "CharacterDataSequence.extend grows self._character_values directly from `%s`; when that is the sequence itself - m.extend_matrix(m), m.extend_sequences(m), seq.extend(seq) - its __iter__ is a generator over the very list being appended to, so the call never returns and memory grows without bound" % p_)
         rep.floor("R19.13", "growth sites in CharacterDataSequence.extend", 1, len(grows))
 
+    # ---- R19.14 every row is a sequence object of its own
+    with rep.section("R19.14"):
+        rep.rule("R19.14", "every row is a sequence object of its own: (a) a loop of CharacterMatrix that stores a row under the loop's key stores an object made in that iteration, never one bound once outside the loop; (b) a method that takes another matrix (`other_matrix`) puts into its own row map only sequences it constructs (character_sequence_type(...)) - it never binds or bulk-copies the other matrix's sequence objects, so a later edit of one matrix cannot show through in the other")
+        na = nb = 0
+        for fi in index.functions_in_module(MOD):
+            if fi.cls is None or not index.is_subclass(fi.cls, CM):
+                continue
+
+            def row_target(t):
+                return isinstance(t, ast.Subscript) and (norm(t.value) == "self" or (isinstance(t.value, ast.Attribute) and t.value.attr == "_taxon_sequence_map" and norm(t.value.value) == "self"))
+            # (a)
+            for lp in walk_no_nested(fi.node):
+                if not isinstance(lp, ast.For):
+                    continue
+                tnames = {x.id for x in ast.walk(lp.target) if isinstance(x, ast.Name)}
+                bound_in = {x.id for st in lp.body for x in ast.walk(st) if isinstance(x, ast.Name) and isinstance(x.ctx, ast.Store)} | tnames
+                for st in (x for b in lp.body for x in ast.walk(b)):
+                    if isinstance(st, ast.Assign) and any(row_target(t) and tnames & {y.id for y in ast.walk(t.slice) if isinstance(y, ast.Name)} for t in st.targets):
+                        na += 1
+                        v = st.value
+                        ok = not (isinstance(v, ast.Name) and v.id not in bound_in)
+                        rep.check(ok, "R19.14", fi.qualname, "one object `%s` stored as the row of every key" % norm(v)[:40], fn_where(fi, st),
+                                  "%s: the row stored per key is made per key" % fi.name,
+                                  "%s stores `%s`, bound once outside the loop, as the row of every key the loop visits: all those taxa share ONE sequence object, so appending to one row changes all of them" % (fi.qualname, norm(v)[:40]))
+            # (b)
+            if "other_matrix" not in fi.all_params:
+                continue
+            for st in walk_no_nested(fi.node):
+                if isinstance(st, ast.Assign) and any(row_target(t) for t in st.targets):
+                    nb += 1
+                    v = st.value
+                    ok = isinstance(v, ast.Call) and ("sequence_type" in call_name(v) or call_name(v) in ("CharacterDataSequence", "list", "deepcopy", "copy"))
+                    rep.check(ok, "R19.14", fi.qualname, "row bound to `%s`" % norm(v)[:50], fn_where(fi, st), "%s: rows taken over are rebuilt (%s)" % (fi.name, norm(v)[:40]),
+                              "%s binds `%s` as a row of this matrix: the sequence object stays shared with other_matrix, and extending or editing the row in one matrix silently changes the other" % (fi.qualname, norm(v)[:60]))
+                if isinstance(st, ast.Call) and isinstance(st.func, ast.Attribute) and st.func.attr in ("update", "setdefault") and isinstance(st.func.value, ast.Attribute) and st.func.value.attr == "_taxon_sequence_map" and norm(st.func.value.value) == "self":
+                    nb += 1
+                    rep.check(False, "R19.14", fi.qualname, "bulk copy of the other matrix's rows", fn_where(fi, st), "%s: no bulk copy" % fi.name,
+                              "%s copies rows with `%s`: the sequence objects of other_matrix become rows of this matrix as they are, so the two matrices share them and a later extend/edit of either shows in both" % (fi.qualname, norm(st)[:70]))
+        rep.floor("R19.14", "keyed row stores in loops", 3, na)
+        rep.floor("R19.14", "row stores in methods that take another matrix", 4, nb)
+
 
 def _r19_3(rep, fi, seeds):
     t = tainted_names(fi, seeds)
